@@ -227,7 +227,7 @@ Definition wire_step (c : cfg) (w : wstate) (e : N * ev) : wstate :=
   match e with
   | Emit d t id k true => emit_step c w act d t id k
   | Deliver d t 1 => deliver_step w d t
-  | Stim StFail t _ _ | Stim StCtxEnd t _ _ => drop_tunnel w t
+  | Stim StFail t _ _ | Stim StCtxEnd t _ _ | Stim StMarshal t _ _ => drop_tunnel w t
   | _ => w
   end.
 
